@@ -51,7 +51,10 @@ def demo(repo, demo_file):
     dst = os.path.join(repo, place, "zz_seed_demo_test.go")
     shutil.copy(demo_file, dst)
     names = re.findall(r"^func (Test\w+)\(", src, re.M)
-    rc, out = sh(["go", "test", "-vet=off", "-count=1", "-run", "^(%s)$" % "|".join(names), "./" + place], repo)
+    cmd = ["go", "test", "-vet=off", "-count=1", "-run", "^(%s)$" % "|".join(names), "./" + place]
+    if os.environ.get("DEMO_RACE"):
+        cmd.insert(2, "-race")
+    rc, out = sh(cmd, repo)
     os.remove(dst)
     return rc, out[-1500:], place
 
